@@ -180,6 +180,9 @@ func VerifC09From() {
 	rootOS := c09Expected(conv, fs, root, ".")
 	// an arbitrary OS path: the root's own OS path (or a proper prefix of it) followed by arbitrary bytes
 	cut := verifChoice("cut", 3)
+	if k := verifParam("ONLYCUT"); k != 0 {
+		verifAssume(cut == k-1) // a variant that spends its length budget on one kind of prefix
+	}
 	prefix := rootOS
 	switch cut {
 	case 1:
